@@ -365,8 +365,10 @@ def conc_consts(main=("p1", "p2"), linked=(), steps=8):
             "MaxSteps": steps}
 
 
+CORE_OVERRIDE = {"module": "MC_Core.tla", "const_keys": None, "executor": None, "tagger": None, "end_event": None,
+                 "chunk": 400}
 PLANS["C11"] = {
-    "clauses": ["C11_NothingLost"],
+    "clauses": ["C11_NothingLost", "C01_Exact", "C02_Carried"],
     "module": "Concurrency.tla", "const_keys": ["ProcMain", "ProcLinked", "Mode", "Dev", "MaxSteps"],
     "executor": _conc.execute_conc, "tagger": _conc_tags, "end_event": {"ev": "reset", "run": "end"},
     "quick": [
@@ -376,12 +378,20 @@ PLANS["C11"] = {
              variants=[("-", "-")], per_tag=4),
         dict(name="three", consts=conc_consts(("p1", "p2"), ("p3",), 6), invariants=["G_C11_NothingLost"], budget=90,
              variants=[("-", "-")], per_tag=1),
+        # "the same as if those operations had run one after another": several agents reporting edits to several
+        # files of one work tree one after another, in every order (core module)
+        dict(name="serial", consts=consts(files=("f", "g"), alphabet=("edit_ins", "ckpt", "commit_all"), steps=7, uid=5,
+                                          lines=4, commits=2), invariants=G_ALL, budget=160,
+             variants=[("plain", "plain"), ("crlf", "spaces")], per_tag=2, plan_override=CORE_OVERRIDE),
     ],
     "thorough": [
         dict(name="three", consts=conc_consts(("p1", "p2", "p3"), (), 6), invariants=["G_C11_NothingLost"],
              budget=200, variants=[("-", "-")], per_tag=3),
         dict(name="four", consts=conc_consts(("p1", "p2"), ("p3", "p4"), 8), invariants=["G_C11_NothingLost"],
              budget=400, variants=[("-", "-")], per_tag=1),
+        dict(name="serial", consts=consts(files=("f", "g"), alphabet=("edit_ins", "edit_del", "ckpt", "commit_all"), steps=8,
+                                          uid=6, lines=4, commits=2), invariants=G_ALL, budget=1200,
+             variants=RENDERS, per_tag=3, plan_override=CORE_OVERRIDE, timeout=2400),
     ],
 }
 
